@@ -270,6 +270,31 @@ Section IncludeFacts.
     intros Ha Hk Hn Hl. cbn [process]. rewrite includes_app, Ha. cbn [do_includes]. rewrite Hk.
     destruct n; try congruence; cbn [o_tree]; rewrite Hl; reflexivity.
   Qed.
+
+  (* include fields of a scope are processed BEFORE its nested scopes: a sub-configuration that arrives (or is
+     completed) through a root-level include and names an include of its own is followed, in its own scope *)
+  Theorem include_root_then_nested k fid sk k2 f2 doc n1 c1 sub n2 c2 :
+    tget k doc = Some (TLeaf n1) -> n1 <> PNone -> load_file fid n1 = Ok c1 ->
+    tget sk (combine doc c1) = Some (TMap sub) ->
+    tget k2 sub = Some (TLeaf n2) -> n2 <> PNone -> load_file f2 n2 = Ok c2 ->
+    process load_file (ISchema [(k, fid)] [(sk, ISchema [(k2, f2)] [])]) doc
+      = Ok (tset sk (TMap (combine sub c2)) (combine doc c1)).
+  Proof.
+    intros H1 N1 L1 Hs H2 N2 L2. cbn [process do_includes]. rewrite H1.
+    destruct n1; try congruence; cbn [o_tree]; rewrite L1; rewrite Hs; rewrite H2;
+      destruct n2; try congruence; cbn [o_tree]; rewrite L2; reflexivity.
+  Qed.
+
+  (* a failing include in a nested scope fails the whole load, whatever the root scope merged before *)
+  Theorem include_nested_fails incs sk k2 f2 doc t1 sub n2 e :
+    do_includes load_file incs doc = Ok t1 ->
+    tget sk t1 = Some (TMap sub) ->
+    tget k2 sub = Some (TLeaf n2) -> n2 <> PNone -> load_file f2 n2 = Err e ->
+    process load_file (ISchema incs [(sk, ISchema [(k2, f2)] [])]) doc = Err e.
+  Proof.
+    intros Ha Hs H2 N2 L2. cbn [process]. rewrite Ha. rewrite Hs. cbn [do_includes]. rewrite H2.
+    destruct n2; try congruence; cbn [o_tree]; rewrite L2; reflexivity.
+  Qed.
 End IncludeFacts.
 
 (* ---- non-vacuity ---- *)
